@@ -251,12 +251,12 @@ package bbolt
 //@   ensures [walked] callstotal("(*DB).freepages$2") == old(callstotal("(*DB).freepages$2")) + 1
 //@   modifies nothing
 //@   noframe     -- as before (the contract was opaque): that the read-only scan leaves the caller-visible state alone (its transaction is private and rolled back) is assumed, not proved
-//@   exit [sound] forall k int :: 0 <= k && k < len(result) ==> !has(reachable, result[k]) && 2 <= result[k]
+//@   exit [sound] forall k int :: 0 <= k && k < len(result) ==> !has(reachable, result[k]) && 2 <= result[k] && result[k] < lastret("(*DB).meta", 0).pgid     -- only ids strictly below the high-water mark
 //@   exit [gaps] forall a int, j common.Pgid :: 0 <= a && a + 1 < len(result) && result[a] < j && j < result[a+1] ==> has(reachable, j)     -- completeness, stated without an existential: between two consecutive result ids every id is marked reachable ...
 // (not proved: that every id below the FIRST result id is marked reachable; the invariant needs the first element of a
 // slice that is being appended to and did not discharge reliably; the bounded scenarios cover it)
 //@   exit [tail] forall j common.Pgid :: (len(result) > 0 ? result[len(result)-1] : 1) < j && j < lastret("(*DB).meta", 0).pgid ==> has(reachable, j)     -- ... and every id between the last one and the high-water mark
-//@   loop 0 invariant [i] i >= 2
+//@   loop 0 invariant [i] i >= 2 && (i == 2 || i <= dbmeta(db).pgid)
 //@   loop 0 invariant [fresh] cap(fids) == 0 || fresh(arrayof(fids))
 //@   loop 0 invariant [unreach] forall k int {fids[k]} :: 0 <= k && k < len(fids) ==> !has(reachable, fids[k])
 //@   loop 0 invariant [lo] forall k int {fids[k]} :: 0 <= k && k < len(fids) ==> 2 <= fids[k]
@@ -341,6 +341,31 @@ package bbolt
 //@   ensures [okframe] err == nil ==> txframe(tx) && mapok(tx) && tx.meta.pgid >= old(tx.meta.pgid) && tx.meta.pgid <= old(tx.meta.pgid) + 4294967296 && (tx.meta.pgid + 1) * tx.db.pageSize <= tx.db.datasz && (tx.db.MaxSize > 0 && tx.meta.pgid != old(tx.meta.pgid) ==> (tx.meta.pgid + 1) * tx.db.pageSize <= tx.db.MaxSize)
 //@   ensures [ok] err == nil ==> tx.db == old(tx.db) && calls("(*Tx).close", tx) == old(calls("(*Tx).close", tx)) && tx.db.datasz <= common.MaxMapSize && calls("(*Tx).rollback", tx) == old(calls("(*Tx).rollback", tx)) && calls("freelist.Interface.Write", tx.db.freelist) == old(calls("freelist.Interface.Write", tx.db.freelist)) + 1
 //@   ensures [disk] unsynced == old(unsynced) && nwrites == old(nwrites)
+
+// Tx.allocate records the page it obtained in the transaction's dirty-page table under the page's own id (that is the
+// table Tx.write flushes); on an error nothing is recorded. Callers keep inlining the body (flag inline).
+//@ func (*Tx).allocate
+//@   inline
+//@   returns (p, err)
+//@   props C06 C01 C07
+//@   requires tx != nil && tx.db != nil && tx.meta != nil && tx.pages != nil && tx.db.pageSize >= 512 && tx.db.pageSize <= 16777216 && tx.db.rwtx == tx && count >= 1 && count <= 4294967295
+//@   requires (tx.meta.pgid + count + 1) * tx.db.pageSize <= 2305843009213693952 && tx.db.AllocSize >= 0 && tx.db.AllocSize <= 2305843009213693952 && tx.db.datasz >= 0 && tx.db.MaxSize >= 0
+//@   callback ensures true
+//@   ensures [recorded] err == nil ==> p != nil && has(tx.pages, p.id) && tx.pages[p.id] == p && p.overflow == count - 1
+//@   ensures [others] err == nil ==> forall k common.Pgid :: k != p.id ==> has(tx.pages, k) == old(has(tx.pages, k)) && tx.pages[k] == old(tx.pages[k])
+//@   ensures [failed] err != nil ==> p == nil && (forall k common.Pgid :: has(tx.pages, k) == old(has(tx.pages, k)) && tx.pages[k] == old(tx.pages[k]))
+
+// Tx.page: a write transaction reads its own dirty page when it has one under that id, otherwise the mapped page; the
+// page returned names itself with the id asked for and is a valid page type (FastCheck panics otherwise).
+//@ func (*Tx).page
+//@   inline
+//@   props C04 C06 C02
+//@   requires tx != nil && tx.db != nil
+//@   panics when true     -- FastCheck aborts on a page that does not identify as `id` or has no valid type (corruption)
+//@   ensures [dirty] tx.pages != nil && has(tx.pages, id) ==> result == tx.pages[id]
+//@   ensures [mapped] tx.pages == nil || !has(tx.pages, id) ==> result == dbpage(tx.db, id)
+//@   ensures [self] result.id == id
+//@   modifies nothing
 
 // pageok: a dirty page buffer names a data page (id >= 2) and its run lies within the addressable file
 //@ pure func pageok(q *common.Page, ps int) bool = q != nil && q.id >= 2 && (q.id + q.overflow + 1) * ps <= 4611686018427387904
@@ -847,10 +872,23 @@ package bbolt
 //@   ensures len(result) == len(v) && bytesval(result) == bytesval(v) && (len(v) > 0 ==> result != nil)
 //@   modifies nothing
 
-//@ func (*Cursor).seek
+// seek empties the stack, searches from the bucket's CURRENT root (re-resolved on every call) and returns what
+// keyValue reads at the position found; where the search lands is Cursor.search (opaque: the branch-level binary
+// search sets a flag from inside its sort.Search predicate, which the engine's model of sort.Search does not cover).
+//@ func (*Cursor).search
 //@   opaque
-//@   returns (key, value, flags)
 //@   ensures c.bucket == old(c.bucket) && len(c.stack) >= 1 && (c.stack[len(c.stack)-1].node != nil || c.stack[len(c.stack)-1].page != nil) && c.stack[len(c.stack)-1].index >= 0
+//@   ensures [wfstack] wfstack(c)
+//@   modifies c.stack, all("elemRef.page"), all("elemRef.node"), all("elemRef.index")
+
+//@ func (*Cursor).seek
+//@   returns (key, value, flags)
+//@   props C05 C04
+//@   requires c != nil && c.bucket != nil
+//@   ensures c.bucket == old(c.bucket) && len(c.stack) >= 1 && (c.stack[len(c.stack)-1].node != nil || c.stack[len(c.stack)-1].page != nil) && c.stack[len(c.stack)-1].index >= 0
+//@   ensures [wfstack] wfstack(c)
+//@   ensures [searched] callstotal("(*Cursor).search") >= old(callstotal("(*Cursor).search")) + 1 && lastarg("(*Cursor).search", 1) == bytesval(seek) && lastarg("(*Cursor).search", 2) == c.bucket.InBucket.root
+//@   ensures [read] callstotal("(*Cursor).keyValue") == old(callstotal("(*Cursor).keyValue")) + 1
 //@   modifies c.stack, all("elemRef.page"), all("elemRef.node"), all("elemRef.index"), all("TxStats.CursorCount")
 
 //@ func (*Cursor).node
@@ -952,9 +990,27 @@ package bbolt
 // first (their names are COLLECTED during the ForEachBucket walk and deleted afterwards: the callback itself deletes
 // nothing - deleting while iterating skipped every other nested bucket and leaked its pages, defect D4), the cached
 // child is dropped, its pages are released through Bucket.free and exactly this level's entry is the last one deleted.
-//@ func (*Bucket).free
+// Bucket.free: an inline bucket owns no page and nothing is freed; otherwise every page/node the walk yields is released
+// exactly once by the callback (a page through Free with this transaction's id, a materialised node through node.free,
+// which resets its page id) and the bucket's root is reset, so a second free() of the same bucket is a no-op. That
+// forEachPageNode yields every page of the bucket exactly once is A-tree.
+//@ func (*Bucket).forEachPageNode
 //@   opaque
+//@   ensures b.tx == old(b.tx) && b.InBucket == old(b.InBucket) && b.InBucket.sequence == old(b.InBucket.sequence) && b.InBucket.root == old(b.InBucket.root)     -- the walk (and the callback releasing pages) does not touch the bucket header
+
+//@ func (*Bucket).free$1
+//@   props C07 C04
+//@   requires tx != nil && tx.db != nil && tx.meta != nil && (p == nil ==> n != nil && n.bucket != nil && n.bucket.tx != nil && n.bucket.tx.db != nil && n.bucket.tx.meta != nil)
+//@   ensures [page] p != nil ==> callstotal("freelist.Interface.Free") == old(callstotal("freelist.Interface.Free")) + 1 && lastarg("freelist.Interface.Free", 1) == tx.meta.txid && lastarg("freelist.Interface.Free", 2) == p
+//@   ensures [node] p == nil ==> callstotal("(*node).free") == old(callstotal("(*node).free")) + 1 && lastarg("(*node).free", 0) == n
+
+//@ func (*Bucket).free
+//@   props C07 C04
 //@   ensures b.tx == old(b.tx)
+//@   ensures [inline] old(b.InBucket.root) == 0 ==> callstotal("freelist.Interface.Free") == old(callstotal("freelist.Interface.Free")) && callstotal("(*Bucket).forEachPageNode") == old(callstotal("(*Bucket).forEachPageNode"))
+//@   ensures [walked] old(b.InBucket.root) != 0 ==> callstotal("(*Bucket).forEachPageNode") == old(callstotal("(*Bucket).forEachPageNode")) + 1 && lastarg("(*Bucket).forEachPageNode", 0) == b
+//@   ensures [reset] b.InBucket.root == 0
+//@   ensures [seq] b.InBucket.sequence == old(b.InBucket.sequence)     -- only the root reference is reset: the bucket's sequence counter survives (a bucket that shrinks back to an inline bucket keeps its sequence)
 
 //@ func (*Bucket).DeleteBucket$2
 //@   props C04 C07
@@ -994,9 +1050,71 @@ package bbolt
 //@   ensures [notsame] err == berrors.ErrSameBuckets ==> b == dstBucket || (old(b.InBucket.root) == old(dstBucket.InBucket.root) && old(b.InBucket.root) != 0) || old(has(b.buckets, bytesval(key)) && b.buckets[bytesval(key)] != nil)
 //@   ensures [noerrwrite] err != nil ==> callstotal("(*node).del") == old(callstotal("(*node).del")) && callstotal("(*node).put") == old(callstotal("(*node).put"))
 //@   ensures [moved] err == nil ==> callstotal("(*node).del") == old(callstotal("(*node).del")) + 1 && callstotal("(*node).put") == old(callstotal("(*node).put")) + 1 && lastarg("(*node).del", 1) == old(bytesval(key)) && lastarg("(*node).put", 1) == old(bytesval(key)) && lastarg("(*node).put", 2) == old(bytesval(key)) && lastarg("(*node).put", 4) == 0 && lastarg("(*node).put", 5) == common.BucketLeafFlag
+//@   ensures [uncached] err == nil && b.buckets != dstBucket.buckets ==> !has(b.buckets, old(bytesval(key)))     -- the source no longer caches the bucket it has given away (a stale cached child would be spilled under the old parent again)
 //@   skip pre/put because the destination leaf is a sorted node of a live write transaction (A-tree: Cursor.node materialises it so)
 //@   skip pre/del because see pre/put
 //@   skip nopanic/put because see pre/put
+
+// splitIndex (used by node.splitTwo only for nodes with more than 2*MinKeysPerPage entries): the split position leaves at
+// least MinKeysPerPage entries on either side, whatever the sizes and the threshold - no page with fewer than two
+// keys comes out of a split (C07: page accounting / tree shape).
+//@ func (*node).splitIndex
+//@   returns (index, sz)
+//@   props C07 C04
+//@   requires n != nil && len(n.inodes) >= 5
+//@   ensures [left] index >= 2
+//@   ensures [right] index + 2 <= len(n.inodes)
+//@   modifies nothing
+//@   loop 0 invariant [i] 0 <= i && i <= len(n.inodes) - 2 && (i == 0 ==> index == 0) && (i > 0 ==> index == i - 1)
+
+// splitTwo: either the node is returned unsplit, or its entries are divided into a prefix (kept) and the remaining suffix
+// (a new sibling under the same parent): no entry is lost or duplicated, both halves keep at least MinKeysPerPage
+// entries, the sibling has the same kind (leaf/branch) and parent.
+//@ func (*node).splitTwo
+//@   returns (first, next)
+//@   props C07 C04
+//@   requires n != nil && n.bucket != nil && n.bucket.tx != nil
+//@   ensures [first] first == n
+//@   ensures [small] old(len(n.inodes)) <= 4 ==> next == nil && len(n.inodes) == old(len(n.inodes))
+//@   ensures [unsplit] next == nil ==> len(n.inodes) == old(len(n.inodes)) && arrayof(n.inodes) == old(arrayof(n.inodes)) && offof(n.inodes) == old(offof(n.inodes))
+//@   ensures [halves] next != nil ==> len(n.inodes) >= 2 && len(next.inodes) >= 2 && len(n.inodes) + len(next.inodes) == old(len(n.inodes))
+//@   ensures [suffix] next != nil ==> arrayof(n.inodes) == old(arrayof(n.inodes)) && offof(n.inodes) == old(offof(n.inodes)) && arrayof(next.inodes) == old(arrayof(n.inodes)) && offof(next.inodes) == old(offof(n.inodes)) + len(n.inodes)
+//@   ensures [sibling] next != nil ==> fresh(next) && next.isLeaf == n.isLeaf && next.parent == n.parent && n.parent != nil && next.bucket == n.bucket
+
+// node.free releases the node's page at most once: the page id is reset, so a second free of the same node (rebalance
+// followed by spill, or a merged sibling) cannot hand the page to the freelist twice.
+//@ func (*node).free
+//@   props C07 C06
+//@   requires n != nil && n.bucket != nil && n.bucket.tx != nil && n.bucket.tx.db != nil && n.bucket.tx.meta != nil
+//@   ensures [freed] old(n.pgid) != 0 ==> callstotal("freelist.Interface.Free") == old(callstotal("freelist.Interface.Free")) + 1 && lastarg("freelist.Interface.Free", 1) == n.bucket.tx.meta.txid
+//@   ensures [reset] n.pgid == 0
+//@   ensures [nofree] old(n.pgid) == 0 ==> callstotal("freelist.Interface.Free") == old(callstotal("freelist.Interface.Free"))
+
+// node.dereference copies the node's own key and EVERY inode key and value into memory it allocates in this very call,
+// unconditionally: a node may have been handed keys that point into the memory map again since an earlier remap of the
+// same commit (spill re-reads leaves from the map), so "already copied once" is not a reason to skip. The statement is
+// an invariant of the loop over the children: its entry obligation is the assertion that the node's own data has just
+// been copied; that dereferencing the CHILDREN leaves this node's inodes alone (they are different nodes) is assumed.
+//@ func (*node).dereference
+//@   props C13 C08 C01
+//@   requires n != nil && n.bucket != nil && n.bucket.tx != nil
+//@   requires (n.key != nil ==> n.pgid == 0 || len(n.key) > 0) && (forall j int :: 0 <= j && j < len(n.inodes) ==> len(n.inodes[j].key) > 0)
+//@   loop 0 invariant [copied] (n.key != nil ==> fresh(arrayof(n.key))) && (forall j int :: 0 <= j && j <= rangeindex ==> fresh(arrayof(n.inodes[j].key)) && fresh(arrayof(n.inodes[j].value)))
+//@   loop 0 invariant [keys] forall j int :: rangeindex < j && j < len(n.inodes) ==> len(n.inodes[j].key) > 0
+//@   loop 0 invariant [same] len(n.inodes) == old(len(n.inodes)) && arrayof(n.inodes) == old(arrayof(n.inodes)) && offof(n.inodes) == old(offof(n.inodes))
+//@   loop 1 invariant [own] (n.key != nil ==> fresh(arrayof(n.key))) && (forall j int :: 0 <= j && j < len(n.inodes) ==> fresh(arrayof(n.inodes[j].key)) && fresh(arrayof(n.inodes[j].value)))
+//@   skip inv.preserve/loop1.own because the recursive calls dereference the CHILD nodes, whose inodes are different objects; the contract language has no way to name "the nodes of a subtree" in a frame
+//@   skip pre/dereference because the children of a node satisfy the same shape requirements (A-tree)
+
+// inlineable: a bucket is stored inline only if its root is a single leaf node that contains no nested bucket (inline
+// buckets cannot hold buckets: they have no page to hang a subtree on) - whatever the sizes.
+//@ func (*Bucket).inlineable
+//@   props C04 C12
+//@   requires b != nil && b.tx != nil && b.tx.db != nil && b.tx.db.pageSize >= 512 && b.tx.db.pageSize <= 16777216
+//@   ensures [leafonly] result ==> b.rootNode != nil && b.rootNode.isLeaf
+//@   ensures [nobuckets] result ==> (forall j int :: 0 <= j && j < len(b.rootNode.inodes) ==> b.rootNode.inodes[j].flags % 2 == 0)
+//@   modifies nothing
+//@   loop 0 invariant [nobuckets] forall j int :: 0 <= j && j <= rangeindex ==> n.inodes[j].flags % 2 == 0
 
 // ---------------------------------------------------------------- C05: cursors
 
@@ -1004,12 +1122,18 @@ package bbolt
 //@   opaque
 //@   returns (p, n)
 //@   ensures (p != nil || n != nil)
+//@   ensures [branch] (n != nil && !n.isLeaf ==> len(n.inodes) >= 1) && (n == nil && p != nil && p.flags != common.LeafPageFlag ==> p.count >= 1)     -- A-tree: a branch page/node has at least one child
 //@   modifies nothing
 
 //@ func (*Cursor).goToFirstElementOnTheStack
-//@   opaque
-//@   ensures c.bucket == old(c.bucket) && len(c.stack) >= 1 && (c.stack[len(c.stack)-1].node != nil || c.stack[len(c.stack)-1].page != nil) && c.stack[len(c.stack)-1].index >= 0
+//@   props C05
+//@   requires c != nil && c.bucket != nil && len(c.stack) >= 1 && wfstack(c)
+//@   ensures c.bucket == old(c.bucket) && len(c.stack) >= 1 && (c.stack[len(c.stack)-1].node != nil || c.stack[len(c.stack)-1].page != nil)
+//@   ensures [wfstack] wfstack(c)
+//@   ensures [leaf] eleaf(c.stack[len(c.stack)-1])
+//@   ensures [descended] len(c.stack) >= old(len(c.stack))
 //@   modifies c.stack, all("elemRef.page"), all("elemRef.node"), all("elemRef.index")
+//@   loop 0 invariant [wf] c.bucket == old(c.bucket) && len(c.stack) >= old(len(c.stack)) && len(c.stack) >= 1 && wfstack(c) && (len(c.stack) > old(len(c.stack)) ==> c.stack[len(c.stack)-1].index == 0)
 
 // first / Last re-resolve the bucket's root on EVERY call (pageNode of the current root id): a Put/Delete earlier in the
 // same transaction may have replaced the root page by a node, and a remembered page would hide the uncommitted changes.
@@ -1024,17 +1148,29 @@ package bbolt
 //@   callsite pageNode requires [root] a_b == c.bucket && a_id == c.bucket.InBucket.root
 //@   modifies c.stack, all("elemRef.page"), all("elemRef.node"), all("elemRef.index")
 
+// wfstack(c): every element of the cursor stack refers to a page or a node, and its index is non-negative unless the
+// element is empty (Last() positions an empty element at index -1); a branch element always points at one of its children
+//@ pure func eleaf(r *elemRef) bool = r.node != nil ? r.node.isLeaf : r.page.flags == common.LeafPageFlag
+//@ pure func wfstack(c *Cursor) bool = forall j int {c.stack[j].index} :: 0 <= j && j < len(c.stack) ==> (c.stack[j].node != nil || c.stack[j].page != nil) && (c.stack[j].index >= 0 || elemcount(c.stack[j]) == 0) && (!eleaf(c.stack[j]) ==> 0 <= c.stack[j].index && c.stack[j].index < elemcount(c.stack[j]))
+
+// next / prevElem: stack safety of the navigation loops on the real code (every index stays in range, the stack never
+// empties, its elements stay well-formed, the element left on top can be read by keyValue); WHICH leaf is reached is
+// decided by goToFirstElementOnTheStack / last (opaque, A-tree). Termination is not proved.
 //@ func (*Cursor).next
-//@   opaque
 //@   returns (key, value, flags)
-//@   ensures c.bucket == old(c.bucket) && len(c.stack) >= 1 && (c.stack[len(c.stack)-1].node != nil || c.stack[len(c.stack)-1].page != nil)
-//@   ensures (c.stack[len(c.stack)-1].index >= 0 || elemcount(c.stack[len(c.stack)-1]) == 0)
+//@   props C05
+//@   requires c != nil && c.bucket != nil && len(c.stack) >= 1 && wfstack(c)
+//@   ensures [stack] c.bucket == old(c.bucket) && len(c.stack) >= 1 && (c.stack[len(c.stack)-1].node != nil || c.stack[len(c.stack)-1].page != nil)
+//@   ensures [index] (c.stack[len(c.stack)-1].index >= 0 || elemcount(c.stack[len(c.stack)-1]) == 0)
+//@   ensures [end] callstotal("(*Cursor).keyValue") == old(callstotal("(*Cursor).keyValue")) ==> key == nil && value == nil && flags == 0     -- nothing is returned without reading the element on top of the stack
 //@   modifies c.stack, all("elemRef.page"), all("elemRef.node"), all("elemRef.index")
+//@   loop 0 invariant [wf] c.bucket == old(c.bucket) && len(c.stack) >= 1 && wfstack(c) && callstotal("(*Cursor).keyValue") == old(callstotal("(*Cursor).keyValue"))
+//@   loop 1 invariant [wf] c.bucket == old(c.bucket) && len(c.stack) >= 1 && wfstack(c) && 0 - 1 <= i && i < len(c.stack) && callstotal("(*Cursor).keyValue") == old(callstotal("(*Cursor).keyValue"))
 
 //@ func (*Cursor).prev
 //@   returns (key, value, flags)
 //@   props C05
-//@   requires c != nil && len(c.stack) >= 1 && c.bucket != nil && c.bucket.InBucket != nil
+//@   requires c != nil && len(c.stack) >= 1 && c.bucket != nil && c.bucket.InBucket != nil && wfstack(c)
 //@   ensures [stack] c.bucket == old(c.bucket) && len(c.stack) >= 1
 //@   ensures [top] (c.stack[len(c.stack)-1].node != nil || c.stack[len(c.stack)-1].page != nil) && (c.stack[len(c.stack)-1].index >= 0 || elemcount(c.stack[len(c.stack)-1]) == 0)
 //@   ensures [beginning] callstotal("(*Cursor).first") != old(callstotal("(*Cursor).first")) ==> key == nil && value == nil && flags == 0
@@ -1042,17 +1178,25 @@ package bbolt
 //@   modifies c.stack, all("elemRef.page"), all("elemRef.node"), all("elemRef.index")
 
 //@ func (*Cursor).prevElem
-//@   opaque
-//@   ensures c.bucket == old(c.bucket) && len(c.stack) >= 1
-//@   ensures c.stack[len(c.stack)-1].node != nil || c.stack[len(c.stack)-1].page != nil
-//@   ensures result ==> elemcount(c.stack[len(c.stack)-1]) > 0 && 0 <= c.stack[len(c.stack)-1].index && c.stack[len(c.stack)-1].index < elemcount(c.stack[len(c.stack)-1])
+//@   props C05
+//@   requires c != nil && c.bucket != nil && len(c.stack) >= 1 && wfstack(c)
+//@   ensures [stack] c.bucket == old(c.bucket) && len(c.stack) >= 1
+//@   ensures [top] c.stack[len(c.stack)-1].node != nil || c.stack[len(c.stack)-1].page != nil
+//@   ensures [found] result ==> elemcount(c.stack[len(c.stack)-1]) > 0
+//@   ensures [wfstack] wfstack(c)
 //@   modifies c.stack, all("elemRef.page"), all("elemRef.node"), all("elemRef.index")
+//@   loop 0 invariant [wf] c.bucket == old(c.bucket) && len(c.stack) >= 1 && wfstack(c)
+//@   loop 1 invariant [wf] c.bucket == old(c.bucket) && len(c.stack) >= 1 && wfstack(c) && 0 - 1 <= i && i < len(c.stack)
 
 //@ func (*Cursor).last
-//@   opaque
+//@   props C05
+//@   requires c != nil && c.bucket != nil && len(c.stack) >= 1 && wfstack(c)
 //@   ensures c.bucket == old(c.bucket) && len(c.stack) >= 1
 //@   ensures (c.stack[len(c.stack)-1].node != nil || c.stack[len(c.stack)-1].page != nil) && (c.stack[len(c.stack)-1].index >= 0 || elemcount(c.stack[len(c.stack)-1]) == 0)
+//@   ensures [wfstack] wfstack(c)
+//@   ensures [leaf] eleaf(c.stack[len(c.stack)-1])
 //@   modifies c.stack, all("elemRef.page"), all("elemRef.node"), all("elemRef.index")
+//@   loop 0 invariant [wf] c.bucket == old(c.bucket) && len(c.stack) >= old(len(c.stack)) && len(c.stack) >= 1 && wfstack(c)
 
 // number of elements of the page/node an elemRef points to (elemRef.count)
 //@ pure func elemcount(r *elemRef) int = r.node != nil ? len(r.node.inodes) : r.page.count
@@ -1097,14 +1241,14 @@ package bbolt
 //@ func (*Cursor).Next
 //@   returns (key, value)
 //@   props C05
-//@   requires c != nil && c.bucket != nil && c.bucket.tx != nil && c.bucket.tx.db != nil
+//@   requires c != nil && c.bucket != nil && c.bucket.tx != nil && c.bucket.tx.db != nil && len(c.stack) >= 1 && wfstack(c)
 //@   ensures [bucketnil] lastret("(*Cursor).next", 2) % 2 == 1 ==> value == nil
 //@   ensures [once] callstotal("(*Cursor).next") == old(callstotal("(*Cursor).next")) + 1 && callstotal("(*Cursor).prev") == old(callstotal("(*Cursor).prev"))
 
 //@ func (*Cursor).Prev
 //@   returns (key, value)
 //@   props C05
-//@   requires c != nil && c.bucket != nil && c.bucket.tx != nil && c.bucket.tx.db != nil && len(c.stack) >= 1 && c.bucket.InBucket != nil
+//@   requires c != nil && c.bucket != nil && c.bucket.tx != nil && c.bucket.tx.db != nil && len(c.stack) >= 1 && c.bucket.InBucket != nil && wfstack(c)
 //@   ensures [bucketnil] lastret("(*Cursor).prev", 2) % 2 == 1 ==> value == nil
 //@   ensures [once] callstotal("(*Cursor).prev") == old(callstotal("(*Cursor).prev")) + 1 && callstotal("(*Cursor).next") == old(callstotal("(*Cursor).next"))
 
